@@ -716,15 +716,20 @@ func c17f(c *Ctx) {
 			c.Bad(key, c.W.FuncPos(ctor), w.ctor+" does not store one of its parameters into "+w.field)
 			continue
 		}
-		calls := c.W.callsReaching(mainFn, ctor, 0)
+		var calls []ssa.CallInstruction
+		for _, call := range c.W.callsTo(ctor) {
+			if p := call.Parent(); p != nil && p.Pkg == mainFn.Pkg {
+				calls = append(calls, call)
+			}
+		}
 		if len(calls) != 1 || pk >= len(calls[0].Common().Args) {
 			c.Bad(key, c.W.FuncPos(mainFn), fmt.Sprintf("expected one call of %s in main, found %d", w.ctor, len(calls)))
 			continue
 		}
-		name, def, ok := flagSource(mainFn, calls[0].Common().Args[pk], 0)
+		name, def, ok := flagSource(c.W, calls[0].Parent(), calls[0].Common().Args[pk], 0)
 		pos := c.W.Pos(calls[0].Pos())
 		if !ok {
-			c.Unk(key, pos, "cannot follow argument "+pretty(c.term(mainFn, calls[0].Common().Args[pk]))+" back to a command-line flag")
+			c.Unk(key, pos, "cannot follow argument "+pretty(c.term(calls[0].Parent(), calls[0].Common().Args[pk]))+" back to a command-line flag")
 			continue
 		}
 		c.Check(name == w.flag && (w.def == "" || def == w.def), key, pos, "option -"+w.flag+" (default "+w.def+") is what "+w.ctor+" stores into "+w.field, fmt.Sprintf("%s.%s receives option -%s (default %s), expected -%s (default %s)", w.ctor, w.field, name, def, w.flag, w.def))
@@ -760,7 +765,7 @@ func c17f(c *Ctx) {
 // flagSource follows v back to the flag it is the value of: *flag.Bool(name, def, …) and
 // friends (also the …Var forms), the map registered with flag.Var, through fields of option
 // records that helper functions fill and return.
-func flagSource(fn *ssa.Function, v ssa.Value, depth int) (name, def string, ok bool) {
+func flagSource(w *World, fn *ssa.Function, v ssa.Value, depth int) (name, def string, ok bool) {
 	if depth > 6 {
 		return "", "", false
 	}
@@ -821,7 +826,7 @@ func flagSource(fn *ssa.Function, v ssa.Value, depth int) (name, def string, ok 
 	case *ssa.MakeMap, *ssa.Alloc:
 		return regOf(x)
 	case *ssa.ChangeType:
-		return flagSource(fn, x.X, depth+1)
+		return flagSource(w, fn, x.X, depth+1)
 	case *ssa.Call:
 		// a record-returning helper is handled by the field case; a flag accessor by value
 		return "", "", false
@@ -841,7 +846,7 @@ func flagSource(fn *ssa.Function, v ssa.Value, depth int) (name, def string, ok 
 			if !isA || a.Referrers() == nil {
 				return "", "", false
 			}
-			return fieldOrigin(fn, a, fname, depth)
+			return fieldOrigin(w, fn, a, fname, depth)
 		}
 		if a, isA := x.X.(*ssa.Alloc); isA {
 			if nm, d, ok := regOf(a); ok {
@@ -849,7 +854,7 @@ func flagSource(fn *ssa.Function, v ssa.Value, depth int) (name, def string, ok 
 			}
 			for _, r := range *a.Referrers() {
 				if st, isSt := r.(*ssa.Store); isSt && st.Addr == ssa.Value(a) {
-					return flagSource(fn, st.Val, depth+1)
+					return flagSource(w, fn, st.Val, depth+1)
 				}
 			}
 		}
@@ -859,7 +864,7 @@ func flagSource(fn *ssa.Function, v ssa.Value, depth int) (name, def string, ok 
 
 // fieldOrigin: the value of field fname of the record variable a — stored directly, or as part
 // of a whole record returned by a helper.
-func fieldOrigin(fn *ssa.Function, a *ssa.Alloc, fname string, depth int) (string, string, bool) {
+func fieldOrigin(w *World, fn *ssa.Function, a *ssa.Alloc, fname string, depth int) (string, string, bool) {
 	for _, r := range *a.Referrers() {
 		switch y := r.(type) {
 		case *ssa.FieldAddr:
@@ -871,7 +876,7 @@ func fieldOrigin(fn *ssa.Function, a *ssa.Alloc, fname string, depth int) (strin
 			}
 			for _, r2 := range *y.Referrers() {
 				if st, isSt := r2.(*ssa.Store); isSt && st.Addr == ssa.Value(y) {
-					return flagSource(fn, st.Val, depth+1)
+					return flagSource(w, fn, st.Val, depth+1)
 				}
 				if call, isCall := r2.(*ssa.Call); isCall && strings.HasSuffix(calleeName(call), "Var") && len(call.Call.Args) > 2 && call.Call.Args[0] == ssa.Value(y) {
 					if nm, isS := strConst(call.Call.Args[1]); isS {
@@ -896,7 +901,7 @@ func fieldOrigin(fn *ssa.Function, a *ssa.Alloc, fname string, depth int) (strin
 						}
 						if ld, isLd := ret.Results[0].(*ssa.UnOp); isLd {
 							if a2, isA := ld.X.(*ssa.Alloc); isA && a2.Referrers() != nil {
-								if nm, d, ok := fieldOrigin(g, a2, fname, depth+1); ok {
+								if nm, d, ok := fieldOrigin(w, g, a2, fname, depth+1); ok {
 									return nm, d, true
 								}
 							}
@@ -906,7 +911,35 @@ func fieldOrigin(fn *ssa.Function, a *ssa.Alloc, fname string, depth int) (strin
 			}
 			if ld, isLd := y.Val.(*ssa.UnOp); isLd {
 				if a2, isA := ld.X.(*ssa.Alloc); isA && a2.Referrers() != nil {
-					return fieldOrigin(fn, a2, fname, depth+1)
+					return fieldOrigin(w, fn, a2, fname, depth+1)
+				}
+			}
+			// the record is a parameter: every caller must hand in a record whose field has the same origin
+			if par, isPar := y.Val.(*ssa.Parameter); isPar && depth < 5 {
+				k := paramIndex(fn, par)
+				var nm, d string
+				n := 0
+				for _, call := range w.callsTo(fn) {
+					if k < 0 || k >= len(call.Common().Args) || call.Parent() == nil {
+						return "", "", false
+					}
+					ld, isLd := call.Common().Args[k].(*ssa.UnOp)
+					if !isLd {
+						return "", "", false
+					}
+					a2, isA := ld.X.(*ssa.Alloc)
+					if !isA || a2.Referrers() == nil {
+						return "", "", false
+					}
+					n2, d2, ok := fieldOrigin(w, call.Parent(), a2, fname, depth+1)
+					if !ok || (n > 0 && (n2 != nm || d2 != d)) {
+						return "", "", false
+					}
+					nm, d = n2, d2
+					n++
+				}
+				if n > 0 {
+					return nm, d, true
 				}
 			}
 		}
